@@ -45,6 +45,10 @@ def handleLmGeo (args : List String) : String :=
     | "bif_vector_local" => " ".intercalate (nodes.map fun k => match lm_bif_vector_local ids pids xs ys zs k with
         | some (a, b) => showRats a ++ ";" ++ showRats b
         | none => "E")
+    | "bif_vector_remote" => " ".intercalate (nodes.map fun k => match lm_bif_vector_remote fuel ids pids xs ys zs k with
+        | some (a, b) => showRats a ++ ";" ++ showRats b
+        | none => "E")
+    | "bif_ampl_remote" => showORs (nodes.map fun k => lm_bif_ampl_remote angleR id fuel ids pids xs ys zs k)
     | "bif_ampl_local" => showORs (nodes.map fun k => lm_bif_ampl_local angleR id ids pids xs ys zs k)
     | "branch_pathlength" => onBranches fun b => lm_branch_pathlength sumsq xs ys zs b
     | "contraction" => onBranches fun b => lm_contraction F sumsq xs ys zs b
